@@ -48,39 +48,8 @@ def run(chk):
     r_ent = chk.rule("C20.entry", "entry points (parser, state constructors, result-file readers) found and call-graph closure built over all library units", floor=15)
     for q in roots:
         chk.instance(r_ent, q, sample=q)
-    # constructors that run inside standard-library templates (emplace_back, make_shared, ...) are not resolved callees of
-    # the calling function: add them from the element / template type
-    tok = re.compile(r"[A-Za-z_][A-Za-z0-9_]*(?:::[A-Za-z_][A-Za-z0-9_]*)*")
-    classes = {f["cls"] for f in fx.fns if f.get("cls") and f.get("ctor")}
-    by_short = {}
-    for c_ in classes:
-        parts = c_.split("::")
-        for i_ in range(len(parts)):
-            by_short.setdefault("::".join(parts[i_:]), set()).add(c_)
-
-    def class_tokens(text):
-        inner = text[text.find("<") + 1:] if "<" in text else text
-        out = []
-        for t_ in tok.findall(inner):
-            if t_.startswith("std::") or t_ in ("const", "unsigned", "int", "double", "float", "char", "bool", "long", "size_t"):
-                continue
-            out += sorted(by_short.get(t_, ()))      # an ambiguous short name adds every candidate: over-approximation
-        return out
-    hidden = {}
-    for f in fx.fns:
-        if not f.get("body"):
-            continue
-        extra = set()
-        for n in walk_fn(f):
-            types = []
-            if n["k"] == "MCall" and n.get("m") in ("emplace_back", "emplace", "try_emplace", "emplace_front", "insert_or_assign") and isinstance(n.get("obj"), dict):
-                types = class_tokens((strip(n["obj"]).get("t") or ""))
-            elif n["k"] == "Call" and (n.get("fn") or "").split("<")[0] in ("std::make_shared", "std::make_unique", "std::make_optional") and n.get("targs"):
-                types = class_tokens("<" + n["targs"][0])
-            for t in types:
-                extra.add(t + "::" + t.split("::")[-1])
-        if extra:
-            hidden[f["q"]] = extra
+    from verif.callgraph import hidden_constructors
+    hidden = hidden_constructors(fx.fns)
     closure = set()
     work = list(roots)
     while work:
